@@ -269,7 +269,7 @@ fn gen_attrs(ch: &mut Ch, thorough: bool) -> Option<Case> {
 
 /// Debug / Default attribute flavours
 fn gen_misc(ch: &mut Ch, _thorough: bool) -> Option<Case> {
-    let cases: [(&[&str], &str); 45] = [
+    let cases: [(&[&str], &str); 48] = [
         (&["Debug"], "pub struct X<T>(#[debug(ignore)] pub T, pub Option<T>);"),
         (&["Debug"], "pub struct X<T> { #[debug(transparent)] pub a: Vec<T>, pub b: u8 }"),
         (&["Debug"], "pub enum X<'a, T> { A(#[debug(ignore)] &'a T), B { #[debug(transparent)] x: T }, C }"),
@@ -320,6 +320,11 @@ fn gen_misc(ch: &mut Ch, _thorough: bool) -> Option<Case> {
         (&["PartialEq"], "pub struct X(#[partial_eq(key = { let ($) = 1u8; 0u8 })] pub u8);"),
         (&["PartialOrd", "PartialEq"], "pub enum X { A(#[partial_ord(key = (|$| 0u8)(1u8))] u8), B }"),
         (&["Hash"], "pub struct X { #[hash(key = ::core::mem::size_of::<$>())] pub x: u8 }"),
+        // a deprecated item / field / variant: deriving for it is no use the author wants to be warned about (the
+        // standard derives are exempt from the lint)
+        (&["Clone", "Debug", "PartialEq", "Eq", "Default", "Hash"], "#[deprecated] pub struct X(pub u8);"),
+        (&["Clone", "Debug", "PartialEq", "Default"], "pub struct X { #[deprecated] pub a: u8, pub b: u8 }"),
+        (&["Clone", "Debug", "Default", "PartialEq"], "pub enum X { #[default] A, #[deprecated] B(u8) }"),
         // lint level attributes on the item cover the generated impls as they cover the impls of the standard derives
         // (the impls repeat the generic parameters and the field types)
         (&["Clone", "Debug", "Default", "Ord", "PartialOrd", "Eq", "PartialEq", "Hash"], "#[allow(non_camel_case_types, non_upper_case_globals)] pub struct X<t, const n: usize>(pub [t; n]);"),
